@@ -8,6 +8,7 @@ import (
 	"runtime"
 	"sort"
 	"strings"
+	"time"
 
 	"github.com/tetratelabs/wazero"
 	"github.com/tetratelabs/wazero/api"
@@ -107,6 +108,8 @@ type rtWorld struct {
 	fns    [3][]api.Function // the function objects, created once and reused for the whole history
 	sBins  map[int]wazero.CompiledModule
 	shared *sharedCode
+	// closeOnDone: see Case.CloseOnDone
+	closeOnDone bool
 }
 
 // sharedCode: binaries and the compilation cache of one world on one engine (shared by the twins).
@@ -124,7 +127,7 @@ func newShared(w *World) *sharedCode {
 	return s
 }
 
-func newRT(w *World, engine string, sh *sharedCode) (*rtWorld, error) {
+func newRT(w *World, engine string, sh *sharedCode, closeOnDone bool) (*rtWorld, error) {
 	ctx := context.Background()
 	var rc wazero.RuntimeConfig
 	if engine == "compiler" {
@@ -133,7 +136,10 @@ func newRT(w *World, engine string, sh *sharedCode) (*rtWorld, error) {
 		rc = wazero.NewRuntimeConfigInterpreter()
 	}
 	rc = rc.WithCompilationCache(sh.cache)
-	r := &rtWorld{w: w, engine: engine, ctx: ctx, rt: wazero.NewRuntimeWithConfig(ctx, rc), sBins: map[int]wazero.CompiledModule{}, shared: sh}
+	if closeOnDone {
+		rc = rc.WithCloseOnContextDone(true)
+	}
+	r := &rtWorld{closeOnDone: closeOnDone, w: w, engine: engine, ctx: ctx, rt: wazero.NewRuntimeWithConfig(ctx, rc), sBins: map[int]wazero.CompiledModule{}, shared: sh}
 	hb := r.rt.NewHostModuleBuilder("env")
 	one := []api.ValueType{api.ValueTypeI32}
 	goFn := func(name string, f func(ctx context.Context, stack []uint64)) {
@@ -265,6 +271,23 @@ func (r *rtWorld) inject(s [3]instSnap) {
 	}
 }
 
+// callCtx: the context of one API call and the function to run when the call has returned.
+func (r *rtWorld) callCtx() (context.Context, func(failed bool)) {
+	if !r.closeOnDone {
+		return r.ctx, func(bool) {}
+	}
+	ctx, cancel := context.WithCancel(r.ctx)
+	return ctx, func(failed bool) {
+		cancel()
+		// give a watcher goroutine that outlived the call the chance to act on the cancellation
+		if failed {
+			time.Sleep(2 * time.Millisecond)
+		} else {
+			runtime.Gosched()
+		}
+	}
+}
+
 // step performs one history step. fresh=true uses a new function object (the twin), else the
 // world's long-lived one. Returns the outcome string.
 func (r *rtWorld) step(st Step, fresh bool) (string, api.Function) {
@@ -274,7 +297,9 @@ func (r *rtWorld) step(st Step, fresh bool) (string, api.Function) {
 		if fresh {
 			f = r.mods[st.Inst].ExportedFunction(fmt.Sprintf("f%d", st.Fn))
 		}
-		res, err := f.Call(r.ctx, uint64(st.Arg))
+		ctx, done := r.callCtx()
+		res, err := f.Call(ctx, uint64(st.Arg))
+		done(err != nil)
 		if err != nil {
 			c, _ := classify(err)
 			return c, f
@@ -296,7 +321,9 @@ func (r *rtWorld) step(st Step, fresh bool) (string, api.Function) {
 			}
 			r.sBins[k] = cm
 		}
-		mod, err := r.rt.InstantiateModule(r.ctx, cm, wazero.NewModuleConfig().WithName("i3"))
+		ctx, done := r.callCtx()
+		mod, err := r.rt.InstantiateModule(ctx, cm, wazero.NewModuleConfig().WithName("i3"))
+		done(err != nil)
 		if err != nil {
 			c, _ := classify(err)
 			return c, nil
@@ -329,13 +356,13 @@ func runCase(c *Case, engine string) CaseObs {
 	obs := CaseObs{ID: c.W.ID, Engine: engine}
 	sh := newShared(&c.W)
 	defer sh.cache.Close(context.Background())
-	real, err := newRT(&c.W, engine, sh)
+	real, err := newRT(&c.W, engine, sh, c.CloseOnDone)
 	if err != nil {
 		obs.Err = err.Error()
 		return obs
 	}
 	defer real.close()
-	twin, err := newRT(&c.W, engine, sh)
+	twin, err := newRT(&c.W, engine, sh, c.CloseOnDone)
 	if err != nil {
 		obs.Err = err.Error()
 		return obs
@@ -359,7 +386,7 @@ func runCase(c *Case, engine string) CaseObs {
 			// the real world failed: rebuild the twin as a world that never failed, put into the
 			// real world's state through the host API
 			twin.close()
-			twin, err = newRT(&c.W, engine, sh)
+			twin, err = newRT(&c.W, engine, sh, c.CloseOnDone)
 			if err != nil {
 				obs.Err = "twin: " + err.Error()
 				return obs
